@@ -10,13 +10,6 @@ namespace SimProc
 namespace C03W
 open World FloorCoreL C02V
 
-/-- no script rewires or creates -/
-def NR (w : World) : Prop :=
-  ∀ l ∈ w.scripts, ∀ op ∈ l, (∀ d ups, op ≠ .rewire d ups) ∧ (∀ sp, op ≠ .create sp)
-
-theorem SC.nr {w : World} (h : SC w) : NR w :=
-  fun l hl op hop => opSC_not_rewire (h.scriptOp hl hop)
-
 theorem NR.of_ss {w w' : World} (h : NR w) (r : SS w w') : NR w' := by
   intro l hl op hop
   rw [r.2] at hl
